@@ -762,6 +762,45 @@ pub fn connector_of(cfg: &ClientCfg) -> Connector {
     reconfigure(Connector::new(), cfg)
 }
 
+/// apply to an existing Connector only the settings in which `new` differs from `old` (the way an application
+/// flips one option between two connections)
+pub fn reconfigure_diff(c: Connector, old: &ClientCfg, new: &ClientCfg) -> Connector {
+    let mut c = c;
+    if (old.width, old.height) != (new.width, new.height) {
+        c = c.screen(new.width, new.height);
+    }
+    if (&old.domain, &old.user, &old.password) != (&new.domain, &new.user, &new.password) {
+        c = c.credentials(new.domain.clone(), new.user.clone(), new.password.clone());
+    }
+    if old.restricted_admin != new.restricted_admin {
+        c = c.set_restricted_admin_mode(new.restricted_admin);
+    }
+    if old.auto_logon != new.auto_logon {
+        c = c.auto_logon(new.auto_logon);
+    }
+    if old.blank_creds != new.blank_creds {
+        c = c.blank_creds(new.blank_creds);
+    }
+    if old.check_certificate != new.check_certificate {
+        c = c.check_certificate(new.check_certificate);
+    }
+    if old.name != new.name {
+        c = c.name(new.name.clone());
+    }
+    if old.nla != new.nla {
+        c = c.use_nla(new.nla);
+    }
+    if old.layout != new.layout {
+        c = c.layout(new.layout());
+    }
+    if old.hash != new.hash {
+        if let Some(h) = &new.hash {
+            c = c.set_password_hash(h.clone());
+        }
+    }
+    c
+}
+
 /// apply every setting of `cfg` to an existing Connector (a password hash, once set, cannot be unset through the API)
 pub fn reconfigure(c: Connector, cfg: &ClientCfg) -> Connector {
     let mut c = c
